@@ -2,7 +2,7 @@
    The swap decision of the model is the one the translator found in stream.go (Gen/SwitchC06.v):
    the proofs below are about exactly that decision and stop compiling when it changes. *)
 From Coq Require Import List ZArith Lia Bool Arith.
-From Shm Require Import Gen.Consts Gen.SwitchC06 Model.LinkedBuffer Proofs.LinkedBufferProofs Proofs.LinkedBufferStore
+From Shm Require Import Gen.Consts Gen.SwitchC06 Gen.SwitchC07 Gen.SwitchC08 Model.LinkedBuffer Proofs.LinkedBufferProofs Proofs.LinkedBufferStore
   Proofs.LinkedBufferWriter Proofs.LinkedBufferXfer Proofs.LinkedBufferPipe.
 Import ListNotations.
 Close Scope Z_scope.
@@ -508,3 +508,113 @@ Proof.
   - destruct (Inv_leases_safe _ _ _ _ _ le I0 Hin Hs) as [A [B _]]. auto.
   - destruct (Inv_leases_safe _ _ _ _ _ le I1 Hin Hs) as [A [B _]]. auto.
 Qed.
+
+(* ---------------------------------------------------------------------------------------- *)
+(* two transports: the order of flushes across the queue (shm) and the socket (fallback)     *)
+(* ---------------------------------------------------------------------------------------- *)
+(* The pipe model keeps ONE ordered list of pending deliveries.  That is justified by the transport
+   decision of Stream.Flush: a receiver that resumes while both the queue and the socket hold data
+   drains the queue first, so the order of flushes survives exactly when no flush goes back to the
+   queue after one went through the socket.  [choose] is the decision of Model.flush. *)
+Inductive via := VQueue | VSocket.
+Definition is_sock (x : via * list byte) : bool := match fst x with VSocket => true | VQueue => false end.
+
+Fixpoint choose (sticky infb : bool) (fl : list (bool * list byte)) : list (via * list byte) :=
+  match fl with
+  | [] => []
+  | (fromshm, bs) :: r =>
+      let fb := (sticky && infb) || negb fromshm in
+      ((if fb then VSocket else VQueue), bs) :: choose sticky fb r
+  end.
+
+Definition bytes_of (l : list (via * list byte)) : list byte := concat (map (@Datatypes.snd _ _) l).
+(* one resumption of the receiver: everything in the queue, then the socket events *)
+Definition deliver_once (l : list (via * list byte)) : list byte :=
+  bytes_of (filter (fun x => negb (is_sock x)) l) ++ bytes_of (filter is_sock l).
+(* any number of resumptions, at any points of the flush sequence *)
+Definition deliver (chunks : list (list (via * list byte))) : list byte := concat (map deliver_once chunks).
+
+Fixpoint qs (l : list (via * list byte)) : bool :=
+  match l with
+  | [] => true
+  | x :: r => if is_sock x then forallb is_sock r else qs r
+  end.
+
+Lemma filter_all_sock l : forallb is_sock l = true ->
+  filter (fun x => negb (is_sock x)) l = [] /\ filter is_sock l = l.
+Proof.
+  induction l as [|x r IH]; intros H; [auto|]. cbn [forallb] in H. apply andb_prop in H. destruct H as [Hx Hr].
+  destruct (IH Hr) as [A B]. cbn [filter]. rewrite Hx. cbn [negb]. rewrite A, B. auto.
+Qed.
+
+Lemma deliver_once_sorted l : qs l = true -> deliver_once l = bytes_of l.
+Proof.
+  induction l as [|x r IH]; intros H; [reflexivity|]. cbn [qs] in H. unfold deliver_once in *. cbn [filter].
+  destruct (is_sock x) eqn:Ex; cbn [negb].
+  - destruct (filter_all_sock r H) as [A B]. rewrite A, B. reflexivity.
+  - unfold bytes_of in *. cbn [map concat]. rewrite <- app_assoc. f_equal. apply IH. exact H.
+Qed.
+
+Lemma forallb_qs l : forallb is_sock l = true -> qs l = true.
+Proof. destruct l as [|x r]; [auto|]. cbn [forallb qs]. intros H. apply andb_prop in H. destruct H as [-> H]. exact H. Qed.
+
+Lemma qs_app a b : qs (a ++ b) = true -> qs a = true /\ qs b = true.
+Proof.
+  induction a as [|x a IH]; intros H; [auto|]. cbn [app qs] in *. destruct (is_sock x).
+  - rewrite forallb_app in H. apply andb_prop in H. destruct H as [H1 H2]. split; [exact H1|apply forallb_qs; exact H2].
+  - apply IH. exact H.
+Qed.
+
+Lemma deliver_sorted : forall chunks, qs (concat chunks) = true -> deliver chunks = bytes_of (concat chunks).
+Proof.
+  induction chunks as [|c cs IH]; intros H; [reflexivity|]. cbn [concat] in H. destruct (qs_app _ _ H) as [Hc Hcs].
+  unfold deliver in *. cbn [map concat]. rewrite (deliver_once_sorted c Hc), (IH Hcs).
+  unfold bytes_of. rewrite map_app, concat_app. reflexivity.
+Qed.
+
+Lemma choose_all_sock : forall fl, forallb is_sock (choose true true fl) = true.
+Proof. induction fl as [|[f bs] r IH]; [reflexivity|]. cbn [choose andb orb forallb is_sock fst]. exact IH. Qed.
+
+Lemma choose_sorted : forall fl infb, qs (choose true infb fl) = true.
+Proof.
+  induction fl as [|[f bs] r IH]; intros infb; [reflexivity|]. cbn [choose qs]. cbn [andb].
+  destruct (infb || negb f) eqn:E; cbn [is_sock fst]; [apply choose_all_sock|apply IH].
+Qed.
+
+Lemma bytes_choose sticky : forall fl infb, bytes_of (choose sticky infb fl) = concat (map (@Datatypes.snd _ _) fl).
+Proof.
+  induction fl as [|[f bs] r IH]; intros infb; [reflexivity|]. cbn [choose]. unfold bytes_of in *. cbn [map concat Datatypes.snd].
+  rewrite IH. reflexivity.
+Qed.
+
+(* with the transport decision of the current source every resumption pattern of the receiver delivers
+   the flushed bytes in flush order (the proof is about the switch translated from Stream.Flush) *)
+Theorem transport_keeps_order : forall infb fl chunks,
+  concat chunks = choose sw_fallback_sticky infb fl -> deliver chunks = concat (map (@Datatypes.snd _ _) fl).
+Proof.
+  intros infb fl chunks H. change sw_fallback_sticky with true in H.
+  rewrite deliver_sorted by (rewrite H; apply choose_sorted). rewrite H. apply bytes_choose.
+Qed.
+
+(* the non-sticky variant (seed C06d / C07): a socket-sized flush followed by a small one is reordered *)
+Example nonsticky_transport_reorders :
+  let big := [1; 2; 3]%Z in let small := [9]%Z in
+  deliver [choose false false [(false, big); (true, small)]] = small ++ big.
+Proof. reflexivity. Qed.
+
+(* ---------------------------------------------------------------------------------------- *)
+(* the peer's close (half close) does not end a lease (C08)                                  *)
+(* ---------------------------------------------------------------------------------------- *)
+Theorem peer_close_is_invisible : forall s, step s RPeerClose = Ok (RUnit, s).
+Proof. intros s. cbn [step]. change sw_sweep_needs_closed with true. reflexivity. Qed.
+
+(* what the sweep would do to a kept zero-copy result if it ran for a half-closed stream (seed C08d) *)
+Example sweep_on_half_close_frees_a_leased_slot :
+  let bs := map Z.of_nat (seq 0 40) in
+  match run (init_sys [(16, 4)]) [WBytes bs; WFlush; RBytes 10; RBytes 20] with
+  | Ok s => map l_off (leases (rcv s)) = [0]
+            /\ existsb (Nat.eqb 0) (concat (free (mem s))) = false
+            /\ existsb (Nat.eqb 0) (concat (free (fst (lb_recycle (mem s) (rcv s))))) = true
+  | _ => False
+  end.
+Proof. vm_compute. repeat split. Qed.
